@@ -66,3 +66,23 @@ pub fn arb_opt_exp(u: &mut arbitrary::Unstructured) -> Option<ExpSpec> {
         Some(arb_exp(u))
     }
 }
+
+/// same as `is_expired`, block time given in nanoseconds
+pub fn is_expired_ns(e: &Expiration, height: u64, time_nanos: u64) -> bool {
+    match e {
+        Expiration::AtHeight(h) => height >= *h,
+        Expiration::AtTime(t) => Timestamp::from_nanos(time_nanos) >= *t,
+        Expiration::Never {} => false,
+    }
+}
+
+impl ExpSpec {
+    /// resolve against a block time in nanoseconds (sub-second part preserved)
+    pub fn resolve_ns(&self, height: u64, time_nanos: u64) -> Expiration {
+        match *self {
+            ExpSpec::Never => Expiration::Never {},
+            ExpSpec::Height(d) => Expiration::AtHeight((height as i128 + d as i128).clamp(0, u64::MAX as i128) as u64),
+            ExpSpec::Time(d) => Expiration::AtTime(Timestamp::from_nanos((time_nanos as i128 + d as i128 * 1_000_000_000).clamp(0, u64::MAX as i128) as u64)),
+        }
+    }
+}
